@@ -16,6 +16,10 @@ CHECKS = {
             "sequential code; an oracle over many hostile inputs is what runtime monitoring can give.",
             "domain = the quantifier of C01 (valid UTF-8 names, finite numbers != -1); sizes <= 1000 tips quick / 50000 thorough. " + BASE_NOTE,
             "DESIGN.md §5 C01"),
+    "C02": ("totality monitors around the real readers fed mutated documents in isolated worker processes: recover + process-death attribution, post-EOF read counter (bounded progress), CPU-second bound, reader-goroutine/channel-state monitor, follow-up traversal/index/write of every delivered tree; library entry points and the gotree binary",
+            "Held on every generated hostile document (four formats x 18 mutators x nesting ladder) at every reader entry point; sampled byte strings, not all.",
+            "documents <= 1 MiB, nesting <= 10^5 quick / 10^6 thorough (Nexus <= 10^4: its reader is quadratic, PhyloXML writer cubic in depth - slow, not hangs); non-termination is decided on logical counters (reads after EOF, CPU seconds, goroutine state), never on wall clock. " + BASE_NOTE,
+            "DESIGN.md §5 C02"),
     "C03": ("structure-walker monitor after every step of random edit histories (invariants of the live pointer structure through public accessors + text-vs-structure via independent reader)",
             "Held on every all-success history of the case list (28 operation kinds, arguments drawn from the live tree, ~800 distinct ordered op pairs per quick run). Sampled histories, not all programs.",
             "only histories whose every step reported success are judged; start trees <= 200/1000 tips, <= 25/40 steps. " + BASE_NOTE,
